@@ -43,7 +43,7 @@ CHECKS.update({
         level='exploration',
         technique='explain-the-diff validity oracle over generated write/read histories; cull volume observed at the SQL seam; policy keys kept by the model',
         text='After every call each vanished key must be expired or a policy-minimal eviction that happened with observed volume >= size_limit, at most cull_limit per write, '
-             'never under policy none; cull() is judged on completeness, order, end state and return value; FanoutCache shards on their divided limit.',
+             'never under policy none; cull() is judged on completeness, order, end state (footprint measured independently: database pages + value files on disk, incl. file-backed non-ASCII text) and return value; FanoutCache shards on their divided limit.',
         note='The observed volume is read on the cache\'s own connection immediately before its PRAGMA page_count (seam self-tested).',
         ref='3/C09',
     ),
@@ -51,7 +51,8 @@ CHECKS.update({
         level='exploration',
         technique='exhaustive enumeration of small-arity call signatures (cache-key collision oracle with an echo function) + generated signature pairs (Hypothesis + atheris/libFuzzer) + wrapper histories under a virtual clock',
         text='All 82 000 signatures with <= 3 positionals and kwargs within {a,b} over a 9-value alphabet x typed x 5 ignore sets are keyed; equal keys must be calls the '
-             'function answers identically. Wrapper histories through all five decorators check result equality, no re-run within expiry, re-run after, expire=0 stores nothing.',
+             'function answers identically. Wrapper histories through all five decorators check result equality, no re-run within expiry, re-run after, expire=0 stores nothing; '
+             'stacked decorators (a memoizer around an already memoized callable, plus a second function on the same cache) must return what the function returns and never share keys.',
         note='memoize_stampede runs with random pinned to never-early; its probabilistic early recomputation is not judged.',
         ref='3/C16',
     ),
@@ -72,7 +73,7 @@ CHECKS.update({
     'C10': dict(
         level='exploration',
         technique='model-based sequences vs. one deque per prefix (Hypothesis) + scheduled producers/consumers with linearizability checking',
-        text='Sequences of push/pull/peek over prefixes that extend one another, mixed with ordinary keys and expiring/file-backed items, are judged against independent per-prefix deques; '
+        text='Sequences of push/pull/peek over prefixes that extend one another or contain format metacharacters, mixed with ordinary keys and expiring/file-backed items, are judged against independent per-prefix deques; '
              'concurrent producers/consumers under generated schedules must linearize against the same model (exactly-once delivery, per-producer order).',
         note=SCHED_NOTE, ref='3/C10',
     ),
@@ -80,13 +81,13 @@ CHECKS.update({
         level='exploration',
         technique='differential testing vs. collections.deque over generated op sequences + scheduled producers/consumers with linearizability checking',
         text='Every Deque method incl. positional access over the out-of-range span, rotate, comparisons, maxlen changes and reopen/pickle/copy events is compared step by step with collections.deque '
-             'for four origins; concurrent append/pop programs must linearize against the bounded deque.',
+             'for six origins, with and without the underlying cache put over its size limit; concurrent append/pop programs must linearize against the bounded deque.',
         note=SCHED_NOTE, ref='3/C11',
     ),
     'C12': dict(
         level='exploration',
         technique='differential testing vs. collections.OrderedDict over generated op sequences + scheduled clients with strict linearizability checking',
-        text='Every Index method, views, equality against ordered/unordered mappings and reopen/unpickle events are compared step by step with OrderedDict; concurrent lookups, replacements, '
+        text='Every Index method, views, equality against ordered/unordered mappings and reopen/unpickle events are compared step by step with OrderedDict (origins Index, FanoutCache.index, DjangoCache.index; with and without the underlying cache put over its size limit); concurrent lookups, replacements, '
              'setdefault and popitem under generated schedules must linearize with no tolerated miss.',
         note=SCHED_NOTE, ref='3/C12',
     ),
@@ -105,14 +106,14 @@ CHECKS.update({
         technique='generated block trees with raise points vs. snapshot/rollback of the reference model + rows-vs-files audit; scheduled isolation check with the block as one atomic call',
         text='Block trees (nested blocks, raise points of three exception kinds, handled inner exceptions) over Cache, FanoutCache, Index and Deque transactions are executed against the model: '
              'an outermost raise must restore keys, values read through the API, expiry, tags, len and leave rows and files consistent; concurrent clients (own object or the same object from another '
-             'thread) under generated schedules must linearize with the whole block as a single call.',
-        note=SCHED_NOTE, ref='3/C06',
+             'thread) under generated schedules must linearize with the whole block as a single call; two clients running FanoutCache.transact() blocks against a plain writer must neither deadlock nor lose atomicity.',
+        note=SCHED_NOTE + ' Known finding: FanoutCache.transact() commits shard by shard, so a reader can see part of a committed block (recorded; recognised by a weaker per-shard-atomic reference, every other loss of atomicity still fails).', ref='3/C06',
     ),
     'C13': dict(
         level='exploration',
         technique='model-based histories through FanoutCache; differential routing vs. the vendored pinned release, fresh interpreters with other hash seeds, and a committed golden file',
         text='C03-style histories over 1/2/3/8/13 shards are compared with the single-cache model incl. aggregates and per-shard iteration order; key batches are routed here, in three fresh '
-             'interpreters, by the pinned copy and physically (which shard directory received the row); equal-identity key pairs must share a shard.',
+             'interpreters, by the pinned copy and physically (which shard directory received the row); equal-identity key pairs must share a shard; reset()/reload through two handles is compared step by step and in what every shard persists with two handles on an unsharded Cache.',
         note='Routing reference = golden/pinned_diskcache (copy of the pinned commit) and golden/routing.json. Known finding: numeric twins route differently (recorded, excluded by construction).',
         ref='3/C13',
     ),
@@ -130,7 +131,7 @@ CHECKS.update({
         level='exploration',
         technique='model-based histories with generated persistence events (reopen, second handle, pickle, thread, fork, fresh interpreter); pinned-writes/current-reads format differential; committed golden directory',
         text='Histories are continued through new handles, unpickled objects, other threads, forked children and fresh interpreters while the reference model ignores the events; every creation setting is '
-             're-read from each new handle; FanoutCache/DjangoCache reopen without arguments; directories written by the vendored pinned release (all key/value representations, tags, expiry, shards, '
+             're-read from each new handle; FanoutCache/DjangoCache reopen without arguments under absolute, ~ and $VAR spellings of the directory; directories written by the vendored pinned release (all key/value representations, tags, expiry, shards, '
              'Deque, Index) and a committed golden directory must read back item for item and accept appends.',
         note='Format reference = golden/pinned_diskcache and golden/dir-5.6.3.tar. Forking while a transaction is open is outside the generated domain (see DESIGN).',
         ref='3/C18',
